@@ -120,6 +120,11 @@ def loop_handler(ip, s, fr: Frame, it):
     # ---- index ghost for sequence iteration
     seq_term = None
     idx_name = inv.ghost.get("index")
+    arr_it = it if isinstance(it, VArr) and isinstance(s, ast.For) else None
+    if arr_it is not None:
+        if idx_name is None:
+            idx_name = f"__i{k}"
+        fr.vars[idx_name] = VInt(0)
     if isinstance(s, ast.For) and isinstance(it, VSeq):
         seq_term = st.heap[(it.ref, "seq")]
         if idx_name is None:
@@ -150,7 +155,15 @@ def loop_handler(ip, s, fr: Frame, it):
     # ---- havoc
     loop_pre = st.snapshot()
     for name, t in (inv.modifies.items() if isinstance(inv.modifies, dict) else []):
-        if "." in name:
+        if "." in name and t is not None:
+            r = ip.resolve_location(name, inv_env())
+            if r[0] == "field":
+                ip.st.heap[(r[1].ref, r[2])] = mk_sym(st, ip.tenv, t, st.fresh_name(name))
+            elif r[0] == "ghost":
+                ip.st.ghost[r[1]] = mk_sym(st, ip.tenv, t, st.fresh_name(name))
+            else:
+                ip.havoc([name], inv_env())
+        elif "." in name:
             ip.havoc([name], inv_env())
         else:
             cur = fr.lookup(name)
@@ -168,6 +181,10 @@ def loop_handler(ip, s, fr: Frame, it):
         i_t = st.fresh(idx_name, z3.IntSort())
         st.assume(z3.And(i_t >= 0, i_t <= z3.Length(seq_term)))
         fr.vars[idx_name] = VInt(i_t)
+    if arr_it is not None:
+        i_t = st.fresh(idx_name, z3.IntSort())
+        st.assume(z3.And(i_t >= 0, i_t <= st.heap[(arr_it.ref, "len")]))
+        fr.vars[idx_name] = VInt(i_t)
     for _i, clause in inv_items:
         st.assume(ip.spec_bool(clause, inv_env(), old))
     # ---- exit or iterate
@@ -179,6 +196,8 @@ def loop_handler(ip, s, fr: Frame, it):
                 raise PathInfeasible()   # guard still true: this is the iterate case, explored separately
         elif seq_term is not None:
             st.assume(fr.vars[idx_name].term == z3.Length(seq_term))
+        elif arr_it is not None:
+            st.assume(fr.vars[idx_name].term == st.heap[(arr_it.ref, "len")])
         elif visited_name is not None:
             st.assume(st.heap[(fr.vars[visited_name].ref, "set")] == set_at_entry)   # every element was visited
         elif isinstance(s, ast.AsyncFor):
@@ -208,13 +227,17 @@ def loop_handler(ip, s, fr: Frame, it):
         return
     except _Continue:
         pass
-    if idx_name is not None and seq_term is not None:
+    if idx_name is not None and (seq_term is not None or arr_it is not None):
         fr.vars[idx_name] = VInt(fr.vars[idx_name].term + 1)
     if visited_name is not None:
         vr = fr.vars[visited_name].ref
         st.heap[(vr, "set")] = z3.Store(st.heap[(vr, "set")], term_of(loop_item), z3.BoolVal(True))
     for upd_name, upd in inv.ghost.get("update", {}).items():
         fr.vars[upd_name] = ip.eval_spec_expr(upd, inv_env(), old)
+    for hi, hint in enumerate(inv.ghost.get("hints", [])):
+        ht = ip.spec_bool(hint, inv_env(), old)
+        if ip.check(f"loop{k}:hint:{hi}", ht, where=hint):
+            st.assume(ht)          # a proved cut, then available to the solver as a fact
     for i, clause in inv_items:
         ip.check(f"loop{k}:preserved:{i}", ip.spec_bool(clause, inv_env(), old), where=clause)
     raise PathDone()
@@ -222,6 +245,11 @@ def loop_handler(ip, s, fr: Frame, it):
 
 def next_item(ip, it, seq_term, fr, idx_name, inv, k):
     st = ip.st
+    if isinstance(it, VArr):
+        i_t = fr.vars[idx_name].term
+        st.assume(i_t < st.heap[(it.ref, "len")])
+        x = z3.Select(st.heap[(it.ref, "arr")], i_t)
+        return wrap(it.elem, x) if it.elem[0] not in ("obj", "symobj") else VObj(it.elem[1], x)
     if isinstance(it, VSeq):
         i_t = fr.vars[idx_name].term
         st.assume(i_t < z3.Length(seq_term))
@@ -498,6 +526,16 @@ def seq_slice(ip, s, lo, hi):
     return VSeq(ref, s.elem)
 
 
+def arr_getitem(ip, a, idx):
+    i = idx.term
+    n = ip.st.heap[(a.ref, "len")]
+    if not ip.spec_mode and ip.st.branch(z3.Or(i >= n, i < -n)):
+        raise_("IndexError")
+    i = z3.If(i < 0, i + n, i)
+    x = z3.Select(ip.st.heap[(a.ref, "arr")], i)
+    return wrap(a.elem, x) if a.elem[0] not in ("obj", "symobj") else VObj(a.elem[1], x)
+
+
 def seq_len(ip, s):
     return VInt(z3.Length(_seq(ip, s)))
 
@@ -512,6 +550,8 @@ def install(lib):  # noqa: F811
     meth[("seq", "insert")] = VBuiltin("list.insert", seq_insert)
     meth[("seq", "pop")] = VBuiltin("list.pop", seq_pop)
     lib["__getitem__"]["seq"] = seq_getitem
+    lib["__getitem__"]["arr"] = arr_getitem
+    lib["__len__"]["arr"] = lambda ip, v: VInt(ip.st.heap[(v.ref, "len")])
     lib["__slice__"]["seq"] = seq_slice
 
 
